@@ -25,6 +25,10 @@ def specs(tier):
         J('jd-fork-steady2-childkill:H1K1Q1P1', 'steady', dict(n=2, journal='file+dump', use_fork=True), dict(H=1, K=1, Q=1, P=1), dict(k=3)),
         J('jd-lagsnap3-chunk64-sendfault:H2R2X1P1', 'lagging_snap', dict(n=3, journal='file+dump', chunk=64, send_faults=True, kill_only=('n3:1',)),
           dict(H=2, R=2, X=1, P=1), clauses=CL + ('C09',)),
+        # the follower's own (inline) compaction is collected one tick later; a snapshot close to its own dump position is
+        # installed in between
+        J('jd-lagsnap3-owncompact:H1R1K1P1', 'lagging_snap', dict(n=3, journal='file+dump', kill_only=('n3:1',)),
+          dict(H=1, R=1, K=1, P=1), dict(after=1)),
         J('jd-lagsnap3:H2R1P1', 'lagging_snap', dict(n=3, journal='file+dump'), dict(H=2, R=1, P=1)),
         J('jd-lagsnap3-after2:H3R1P1', 'lagging_snap', dict(n=3, journal='file+dump'), dict(H=3, R=1, P=1), dict(j=3, after=2)),
         J('jd-lagsnap2-chunk64:H2R1P1', 'lagging_snap', dict(n=2, journal='file+dump', chunk=64), dict(H=2, R=1, P=1)),
